@@ -191,8 +191,16 @@ func runVariant(dir, id string) int {
 	ctx.emitAnchors()
 	r.closeRule()
 	var fired []string
+	knownKeys := map[string]bool{}
+	if ks, err := loadKnown(filepath.Join(verifDir(), "known_findings.txt")); err == nil {
+		for _, k := range ks {
+			if k.Property == e.Property {
+				knownKeys[k.Key] = true
+			}
+		}
+	}
 	for _, o := range r.Obls {
-		if o.st != OK && strings.HasPrefix(o.Rule, e.Rule) {
+		if o.st != OK && strings.HasPrefix(o.Rule, e.Rule) && !knownKeys[o.Key] {
 			fired = append(fired, o.Key+" @"+o.Pos)
 		}
 	}
